@@ -107,12 +107,28 @@ class Impl(object):
             cur.insert(args[0], args[1])
         elif name == 'extend':
             vs = args[0]
-            if isinstance(vs, A.ItArg):
-                vs = vs.make()
-            elif vs and isinstance(vs[0], (dict, list)) and not isinstance(vs, tuple):
+            if isinstance(vs, str) and vs == 'SELF':
+                # a list can be extended with itself; an implementation that iterates while it appends never ends
+                import signal
+
+                def _stuck(signum, frame):
+                    raise RuntimeError('extend(self) did not finish within 10 s')
+                old_handler = signal.signal(signal.SIGALRM, _stuck)
+                signal.alarm(10)
+                try:
+                    cur.extend(cur)
+                finally:
+                    signal.alarm(0)
+                    signal.signal(signal.SIGALRM, old_handler)
+                return
+            items = vs.items if isinstance(vs, A.ItArg) else vs
+            if not isinstance(items, tuple) and any(isinstance(x, (dict, list)) for x in items):
                 et = self._elem_type(path)
-                vs = [T.build(self.ref, et, self.model.to_tree(et, x), getattr(self.mod, self._cls_name(et))())
-                      for x in vs]
+                items = [T.build(self.ref, et, self.model.to_tree(et, x), getattr(self.mod, self._cls_name(et))())
+                         if isinstance(x, (dict, list)) else x for x in items]
+                vs = iter(items) if isinstance(vs, A.ItArg) else items
+            elif isinstance(vs, A.ItArg):
+                vs = vs.make()
             cur.extend(vs)
         elif name == 'setitem':
             cur[args[0]] = args[1]
